@@ -60,11 +60,16 @@ class BlImm11Relocation(Relocation):
         imm32 = wrap_negative(offset >> 1, 32)
         imm11 = imm32 & 0x7FF
         imm10 = (imm32 >> 11) & 0x3FF
-        s = (imm32 >> 24) & 0x1
+        s = (imm32 >> 23) & 0x1
+        # offset bits 23 and 22 are stored as J1 = not (I1 xor S) and J2:
+        j1 = ((imm32 >> 22) & 0x1) ^ s ^ 1
+        j2 = ((imm32 >> 21) & 0x1) ^ s ^ 1
         bv = BitView(data, 0, 4)
         bv[0:10] = imm10
         bv[10:11] = s
         bv[16:27] = imm11
+        bv[27:28] = j2
+        bv[29:30] = j1
         return data
 
 
